@@ -198,6 +198,14 @@ def eval_behavioural(ctx, out, kinds, problems):
         out.violations.append({"property": ctx.pid, "kind": "in-domain-declaration-does-not-compile", "declaration": m["decl"],
                                "rustc_error": m["error"], "model": m["model"], "note": m["note"],
                                "witness_key": m["note"].split(" cfg=")[0]})
+    # the same for a user crate without std: the documented configurations compiled as `#![no_std]` crates (probe classes no_std:* and
+    # sigs-no_std:*); an item whose generated code names `::std` does not exist there
+    pr = stages.probe_stage(ctx.seed, ctx.tier)
+    nostd = [p for p in pr["probes"] if p["cls"].startswith(("no_std:", "sigs-no_std:"))]
+    cov["no_std_crates_compiled"] = len(nostd)
+    for p in sorted((p for p in nostd if p["impl"] != p["expect"]), key=lambda p: len(p["source"]))[:1]:
+        out.violations.append({"property": ctx.pid, "kind": "does-not-compile-in-a-no_std-crate", "probe_class": p["cls"], "source": p["source"],
+                               "rustc_error": p.get("error", "")[:1200], "witness_key": "no_std"})
     out.searched = f"{ops} operations of kinds {kinds} on {b['n_subjects']} subjects: implementation == specification on all"
     return mism
 
